@@ -17,6 +17,7 @@ theorem subtract_single {fuel : Nat} {sr hole : Rect} {s' : List Rect}
     (h : RectSet.subtract fuel [sr] hole = some s') (hsr : sr.Nonempty) (hh : hole.Nonempty) :
     (∀ r ∈ s', r.Nonempty) ∧ ∀ l c, Covered s' l c ↔ (sr.Mem l c ∧ ¬ hole.Mem l c) := by
   have hs : ∀ r ∈ [sr], r.Nonempty := by intro r hr; simp at hr; rw [hr]; exact hsr
+  rw [RectSet.subtract_of_nonempty fuel [sr] hole hh] at h
   have hb := RectSet.subtractFrom_bounds fuel [sr] hole 0 s' h hh hs
   have hcov1 : ∀ l c, Covered [sr] l c ↔ sr.Mem l c := by
     intro l c; unfold Covered; simp
@@ -26,7 +27,6 @@ theorem subtract_single {fuel : Nat} {sr hole : Rect} {s' : List Rect}
   · intro hc
     refine ⟨(hcov1 l c).1 (hb.2.1 l c hc), ?_⟩
     -- no cell of the hole stays covered: look at how the single member was split
-    unfold RectSet.subtract at h
     cases fuel with
     | zero => simp [RectSet.subtractFrom] at h
     | succ n =>
